@@ -28,6 +28,9 @@ RULES = {
     "PAIR": "a stored hash is written together with its register value under the same guard and comes from the streamed item",
     "TIE": "registers carrying a payload and a narrow key (densified sketchers, F may be f32) use an order-insensitive guard: "
            "strictly smaller, or equal and tie-broken on the payload",
+    "HISTO": "the histogram b[] of integer parts and a_upper (which bound the draw loop) follow every register move: old level "
+             "decremented and new level incremented together, old level read before it is overwritten, a_upper lowered only while its "
+             "level is empty",
     "MARKER": "SuperMinHash's inline shuffle re-initialises p[x] exactly when q[x] != current item rank, and marks it",
 }
 
@@ -222,6 +225,62 @@ def _dens_sketch(ctx, facts, prefix):
     return n
 
 
+def _histo(ctx, facts, fid, kind):
+    """HISTO: the histogram b[] of integer parts and its upper bound a_upper bound the draw loop; they must follow every
+    register move: in the same guarded block b[old level] -= 1 and b[new level] += 1 (old level read before it is
+    overwritten), then a_upper is lowered while b[a_upper] == 0 — and nowhere else are b / a_upper written"""
+    fn = facts.fn(fid)
+    t = tree_of(fn)
+    ws = writes_to_self(fn)
+    bws = [(w, i) for (w, f, i) in ws if f == "b"]
+    aws = [w for (w, f, i) in ws if f == "a_upper"]
+    decs = [(w, i) for (w, i) in bws if w["k"] == "AssignOp" and w["op"] == "-=" and nf.nf(w["r"]) == "1"]
+    incs = [(w, i) for (w, i) in bws if w["k"] == "AssignOp" and w["op"] == "+=" and nf.nf(w["r"]) == "1"]
+    where = hirq.loc(fn)
+    if len(decs) != 1 or len(incs) != 1 or len(bws) != 2:
+        ctx.violation("HISTO", fid, "histogram updates", where, "expected exactly one `b[old] -= 1` and one `b[new] += 1` in the draw loop; found %d decrement(s), %d increment(s), %d write(s) to b" % (len(decs), len(incs), len(bws)))
+        return
+    (dec, di), (inc, ii) = decs[0], incs[0]
+    blk = t.parent.get(id(dec))
+    if t.parent.get(id(inc)) is not blk:
+        ctx.violation("HISTO", fid, "histogram updates split", hirq.loc(inc), "the decrement of the old level and the increment of the new level are not in the same block")
+        return
+    old, new = nf.nf(di[0], True), nf.nf(ii[0], True)
+    conds = nf.all_conditions(t, dec)
+    ok = new == "j"
+    if kind == "smh":
+        # old level j_2 = min(hsketch[p[j]] as usize, m-1) computed before the register is overwritten, moved only if j < j_2
+        from ..rulelib import def_exprs
+        d = [nf.nf(e, True) for e in def_exprs(fn, old)] if old.isidentifier() else []
+        regw = [w for (w, f, i) in ws if f == "hsketch"]
+        defn = [n for n in user_nodes(fn) if n["k"] == "Let" and n["pat"]["k"] == "Bind" and n["pat"]["name"] == old]
+        ok = ok and len(d) == 1 and d[0] in ("std::cmp::min(self.hsketch[self.p[j]].to_usize().unwrap(), (m - 1))", "std::cmp::min((m - 1), self.hsketch[self.p[j]].to_usize().unwrap())",
+                                               "self.hsketch[self.p[j]].to_usize().unwrap().min((m - 1))") \
+            and bool(regw) and bool(defn) and hir_dominates(t, defn[0], regw[0]) and nf.has_cmp(conds, "j", ("<",), old) is not None
+        msg = "old level `%s` must be min(hsketch[p[j]] as usize, m-1) read BEFORE the register is overwritten, and the move guarded by j < %s" % (old, old)
+    else:
+        # old level is l[k]; l[k] = j must come after the decrement in the same block
+        lw = [w for (w, f, i) in ws if f == "l" and t.parent.get(id(w)) is blk]
+        ok = ok and old == "self.l[k]" and len(lw) == 1 and nf.nf(lw[0]["r"], True) == "j" and hir_dominates(t, dec, lw[0])
+        msg = "old level must be self.l[k], decremented before `self.l[k] = j` in the same block"
+    if ok:
+        ctx.ok("HISTO", fid, "b[%s] -= 1; b[%s] += 1 in one guarded block, old level read before the move" % (old, new), hirq.loc(dec))
+    else:
+        ctx.violation("HISTO", fid, "histogram move", hirq.loc(dec), "b[%s] -= 1 / b[%s] += 1: %s; conditions %s" % (old, new, msg, conds[:2]))
+    # a_upper lowered only while its level is empty, right after the move
+    good = len(aws) == 1
+    if good:
+        a = aws[0]
+        ac = nf.all_conditions(t, a, stop=blk)
+        step = nf.nf(a, True) in ("self.a_upper -= 1", "self.a_upper = (self.a_upper - 1)")
+        loops = t.enclosing_loops(a)
+        good = step and ac[:1] == [("cmp", "0", "==", "self.b[self.a_upper]")] and bool(loops) and t.contains(blk, loops[0]) and inc["sp"][1] <= a["sp"][1]
+    if good:
+        ctx.ok("HISTO", fid, "a_upper lowered only while b[a_upper] == 0, after the move", hirq.loc(aws[0]))
+    else:
+        ctx.violation("HISTO", fid, "a_upper update", hirq.loc(aws[0]) if aws else where, "a_upper must be lowered by `while self.b[self.a_upper] == 0 { self.a_upper -= 1 }` directly after the histogram move and written nowhere else in sketch (%d write(s) found)" % len(aws))
+
+
 def _exit_aupper(ctx, facts, fid):
     fn = facts.fn(fid)
     t = tree_of(fn)
@@ -380,7 +439,7 @@ def run(ctx, facts):
         "Structural clauses of C04 on the five unweighted sketchers: guarded improving register writes, provenance of written "
         "values, seed provenance, legitimacy of early exits, the item_rank counter, per-item permutation reset, pure delegation "
         "of sketch_slice, paired stored hashes, and order-insensitive tie-breaking of payload registers.")
-    ctx.not_decided[:] = ["that the histogram b[]/a_upper bookkeeping really is the largest integer part present (array invariant)"]
+    ctx.not_decided[:] = ["that a_upper really is the largest occupied level as an array invariant over all histories (its update shape is checked: HISTO)"]
     has2 = facts.has(SMH2 + "sketch")
     table = {k: v for k, v in SEED_TABLE.items() if facts.has(k)}
     n = check_seeds(ctx, facts, "SEED", table)
@@ -397,6 +456,9 @@ def run(ctx, facts):
         e += _exit_aupper(ctx, facts, SMH2 + "sketch")
     e += _exit_setsketch(ctx, facts)
     ctx.floor("C04 loop exits", e, 4 if has2 else 3)
+    _histo(ctx, facts, SMH + "sketch", "smh")
+    if has2:
+        _histo(ctx, facts, SMH2 + "sketch", "smh2")
     _counter(ctx, facts)
     from . import C13
     C13.require_verified_reset(ctx, facts, [C13.FY], "RESETBEFORE")
